@@ -38,7 +38,9 @@ class Gen:
                                                      ['x', 'x1', 'x10', 'x01', 'xx'], ['a', 'aa', 'A', 'aA', 'x0'],
                                                      # identifiers that merely START like a keyword or like a generated name
                                                      ['Loops', 'loop_i', 'Ends', 'x0', 'Stop1'], ['WhileX', 'Do_', 'If0', 'a', 'Then_1'],
-                                                     ['LoopVariable', 'Temporary', 'Variable', 'x0', 'RUNNER'], ['Programs', 'Inx', 'Outer', 'Withal', 'x1']])
+                                                     ['LoopVariable', 'Temporary', 'Variable', 'x0', 'RUNNER'], ['Programs', 'Inx', 'Outer', 'Withal', 'x1'],
+                                                     # capitalisations of keywords that are NOT documented spellings: identifiers
+                                                     ['dO', 'iF', 'iN', 'aS', 'x0'], ['eND', 'lOOP', 'rUN', 'wITH', 'sTOP'], ['gOTO', 'tHEN', 'oUT', 'pROG', 'whilE']])
 
     def num(self):
         r = self.r
@@ -98,7 +100,20 @@ class Gen:
                     l = labels[-1].swapcase()
                 labels.append(l)
                 out.append(['label', l])
-                out.append(['assign', r.choice(self.vars), self.val(progs)])
+                # the labelled statement: mostly an assignment, sometimes a jump, a STOP or a loop
+                q_ = r.random()
+                if q_ < 0.7:
+                    out.append(['assign', r.choice(self.vars), self.val(progs)])
+                elif q_ < 0.82:
+                    out.append(['goto', None])
+                elif q_ < 0.9:
+                    out.append(['if', r.choice(self.vars), r.randint(0, 3), None])
+                elif q_ < 0.94:
+                    out.append(['stop'])
+                elif depth < self.maxdepth:
+                    out.append(['loop', r.choice(self.vars), self.stmts(progs, labels, depth + 1, r.randint(1, 2))])
+                else:
+                    out.append(['assign', r.choice(self.vars), self.val(progs)])
             elif k < 0.82:
                 out.append(['goto', None])
             elif k < 0.94:
